@@ -52,9 +52,12 @@ pub struct Plan {
     pub cases: Vec<Case>,
     pub stack_kb: usize,
     pub entropy: u64,
+    /// images longer than this are cut (quick: 48 KB, thorough: 160 KB)
+    pub max_image: usize,
 }
 
 const SECTOR: usize = 512;
+const NOTATION_SAMPLES: &str = include_str!("../samples/notation.asn");
 
 fn base_bytes(b: &Base) -> Vec<u8> {
     match b {
@@ -150,14 +153,20 @@ impl Scenario for C08Images {
         true
     }
     fn cpu_budget_secs(&self) -> u64 {
-        60
+        // outer bound for a whole batch; the effective budget is re-armed per image (see execute)
+        7200
     }
 
     fn plan(&self, seed: u64, idx: u64, tier: Tier, env: &Env) -> Value {
         let root = Rng::new(seed);
         let mut w = root.fork("workload");
         let corpus_turn = !env.corpus.is_empty() && idx % 4 != 3;
-        let base = if corpus_turn {
+        let base = if idx % 16 == 15 {
+            // a hand-written valid module using notation the generator does not produce
+            // (TIME, REAL, MACRO, CLASS / objects / object sets, selection types, COMPONENTS OF,
+            // parameterization, recursion, multi-byte strings): still a VALID base for images
+            Base::Text(NOTATION_SAMPLES.to_string())
+        } else if corpus_turn {
             // systematic walk: every corpus file is a base several times per tier
             Base::Corpus(env.corpus[(idx as usize - idx as usize / 4) % env.corpus.len()].clone())
         } else {
@@ -205,7 +214,7 @@ impl Scenario for C08Images {
             };
             cases.push(Case { image, file: f.chance(2, 5) });
         }
-        let p = Plan { seed, base, other, cases, stack_kb: *root.fork("layout").pick(&[2048usize, 8192]), entropy: root.fork("hashkeys").next_u64() };
+        let p = Plan { seed, base, other, cases, stack_kb: *root.fork("layout").pick(&[2048usize, 8192]), entropy: root.fork("hashkeys").next_u64(), max_image: if tier == Tier::Quick { 48 * 1024 } else { 160 * 1024 } };
         serde_json::to_value(&p).unwrap()
     }
 
@@ -214,7 +223,10 @@ impl Scenario for C08Images {
         let mut out = Outcome::default();
         std::env::remove_var("CARGO");
         std::env::set_var("CARGO_HOME", format!("{root}/cargo-home"));
-        let base = base_bytes(&p.base);
+        // size cap (see the non-termination detector below): an over-long source takes part
+        // with its first max_image bytes only, a splice appends at most max_image bytes
+        let mut base = base_bytes(&p.base);
+        base.truncate(p.max_image);
         let other = p.other.as_ref().map(base_bytes).unwrap_or_default();
         let base_name = match &p.base {
             Base::Corpus(pth) => format!("corpus:{}", pth.rsplit('/').next().unwrap_or("")),
@@ -223,7 +235,19 @@ impl Scenario for C08Images {
         let backends = [BackendSel::Rasn(RasnCfg::default_cfg()), BackendSel::Ts];
         let mut digest = String::new();
         for (ci, case) in p.cases.iter().enumerate() {
-            let image = apply(&case.image, &base, &other);
+            let other_view: &[u8] = match &case.image {
+                Image::Splice { from, .. } => &other[..(*from + p.max_image).min(other.len())],
+                _ => &other[..],
+            };
+            let image = apply(&case.image, &base, other_view);
+            // Non-termination detector. The block-comment scanner of the lexer is quadratic in
+            // the length of an unterminated comment (measured: ~100 s CPU for 95 KB in this
+            // build), which is slow but terminates - not a violation. Images are capped in size
+            // and the CPU budget of one image is 60 s + 1200 s * (n / 100 KB)^2, i.e. at least
+            // five times above that known worst case; only exceeding it counts as a hang.
+            debug_assert!(image.len() <= 2 * p.max_image + SECTOR);
+            let n = image.len() as f64 / 100_000.0;
+            crate::proc::set_cpu_budget_from_now(60 + (1200.0 * n * n) as u64);
             let text_lossy = String::from_utf8_lossy(&image).into_owned();
             let seam = if case.file { seam_faults(&case.image, base.len()) } else { None };
             // stored bytes: the unmodified file when the seam applies the fault in flight,
